@@ -6,17 +6,19 @@ Section Proofs.
 Context {R O X : Type}.
 Variable R_eqb : R -> R -> bool.
 Variable O_eqb : O -> O -> bool.
+Variable R_empty : R.
+Variable O_empty : O.
 
 Notation config := (config R O X).
 Notation state := (state R O X).
-Notation load := (@load R O X R_eqb O_eqb).
+Notation load_gen := (@load_gen R O X R_eqb O_eqb R_empty O_empty).
 
-Lemma load_rejected_unchanged (s : state) (arg : option config) :
-  snd (fst (load s arg)) <> None ->
-  fst (fst (load s arg)) = s /\ snd (load s arg) = [].
+Lemma load_rejected_unchanged p (s : state) (arg : option config) :
+  snd (fst (load_gen p s arg)) <> None ->
+  fst (fst (load_gen p s arg)) = s /\ snd (load_gen p s arg) = [].
 Proof.
-  unfold TargetCfgModel.load. destruct arg as [cf|]; cbn; [|auto].
-  destruct (validate cf); cbn; [auto|].
+  unfold TargetCfgModel.load_gen. destruct arg as [cf|]; cbn; [|auto].
+  destruct (validate_gen p cf); cbn; [auto|].
   destruct (check_revision s cf); cbn; [congruence|auto].
 Qed.
 
